@@ -166,6 +166,12 @@ func c19Exec(r *Run, line string) string {
 		}
 		return strconv.FormatBool(in)
 	}
+	if obs, ok := c19ExecColl(r, line, f); ok {
+		return obs
+	}
+	if obs, ok := c19ExecX(r, line, f); ok {
+		return obs
+	}
 	return c19Exec2(r, line, f)
 }
 
@@ -1121,6 +1127,14 @@ func TestC19(t *testing.T) {
 	}
 	n := r.N(16000, 220000)
 	for i := 0; i < n; i++ {
+		if g.Chance(30) {
+			if g.Chance(60) {
+				c19GenColl(r, g, emit)
+			} else {
+				c19GenX(r, g, emit)
+			}
+			continue
+		}
 		if g.Chance(70) {
 			switch g.Intn(3) {
 			case 0:
